@@ -54,8 +54,11 @@ class TimeActiveDecorator(TriggerHandlerDecorator, AutoKwargsDecorator):
             if not await trigger.TrigTime.timer_active_check(self.args, now, self.dm.startup_time):
                 return False
 
-        self.last_trig_time = time.monotonic()
         return True
+
+    def handle_accepted(self, data: DispatchData) -> None:
+        """Remember the time of the last successful trigger for hold_off."""
+        self.last_trig_time = time.monotonic()
 
 
 class TimeTriggerDecorator(TriggerDecorator):
